@@ -389,6 +389,16 @@ def fam_core(rng, tier):
         for seq in (['dst_move_noeval', 'manual1'], ['dst_move_noeval', 'manual_first', 'push']):
             out.append(dict(id='core/reset/B3/%s/%s' % (mode, '+'.join(seq)), world=world('B3', mode),
                             steps=[{"a": "reset_script", "seq": seq, "cmd": "reset", "dst": "development/4.3"}], core=True))
+    # C10/C19: a backport: the same source branch, already merged into the later versions, proposed to an older one
+    # (its new integration branches are in sync from the start); evaluated again and again
+    for mode in ('queue', 'noqueue'):
+        out.append(dict(id='core/backport/B3/%s' % mode,
+                        world=world('B3', mode, {'always_create_integration_pull_requests': False}),
+                        steps=[open_pr(1, 'development/5.1', base='development/4.3'), {"a": "gate", "p": 1}, {"a": "finish_queue"},
+                               {"a": "open_pr", "src": src(1), "dst": "development/4.3", "existing": True},
+                               {"a": "eval_pr", "p": 2}, {"a": "eval_pr", "p": 2}, {"a": "eval_pr", "p": 2},
+                               {"a": "eval_pr", "p": 2}, {"a": "gate", "p": 2}, {"a": "finish_queue"},
+                               {"a": "eval_pr", "p": 2}], core=True))
     # C12: two dependencies of mixed status
     out.append(dict(id='hold/B3/queue/after_two/core', world=world('B3', 'queue'),
                     steps=[{"a": "hold_script", "hold": "after_two", "pos": "at_open", "dst": "development/4.3",
